@@ -39,6 +39,11 @@ func (s *HopServer) AuthorizeKeyAuthGrant(user string, publicKey keys.DHPublicKe
 // checkIntent looks at details of Intent Request and ensures they follow its policies
 // func (sess *hopSession) checkIntent(tube *tubes.Reliable) (authgrants.MessageData, bool) {
 func (sess *hopSession) checkIntent(intent authgrants.Intent, principalCert *certs.Certificate) error {
+	// a session that was itself admitted through authorization grants acts with
+	// delegated, limited authority: no grant type lets it issue further grants
+	if sess.usingAuthGrant {
+		return fmt.Errorf("session admitted by authorization grant may not issue grants")
+	}
 	// check that requested time is valid
 	if intent.ExpTime.Before(time.Now()) {
 		return fmt.Errorf("invalid expiration time")
